@@ -117,9 +117,9 @@ MIN_OBS = {
               'peer_link_closed_while_pending': 700, 'completed_over_another_link_after_a_close': 150},
     'thorough': {'histories': 640000, 'requests_judged': 1100000, 'messages_delivered': 1300000,
                  'same_instant_cases': 230000, 'back_to_back_segments': 190000, 'residue_checks': 640000,
-                 'later_delivery_checks': 640000, 'cancel_at_arrival_order_a': 10000, 'cancel_at_arrival_order_b': 17000,
-                 'cancel_at_arrival_order_c': 8000, 'cancel_at_arrival_plus_hops': 50000, 'deadline_at_arrival': 115000,
-                 'requests_ended_while_handlers_suspended': 48000, 'judged_by_order_at_the_call_instant': 75000,
+                 'later_delivery_checks': 640000, 'cancel_at_arrival_order_a': 8000, 'cancel_at_arrival_order_b': 15000,
+                 'cancel_at_arrival_order_c': 6000, 'cancel_at_arrival_plus_hops': 50000, 'deadline_at_arrival': 115000,
+                 'requests_ended_while_handlers_suspended': 42000, 'judged_by_order_at_the_call_instant': 70000,
                  'deadline_inside_a_stall': 30000, 'reply_and_deadline_inside_one_stall': 22000,
                  'peer_link_closed_while_pending': 110000, 'completed_over_another_link_after_a_close': 25000},
 }
